@@ -395,6 +395,29 @@ def shrink_l1(tag, m, label_re, kinds=None, max_steps=80):
     return best
 
 
+def alone_l1(tag, m):
+    """the same case, alone in a fresh process: the mismatch records it gives there (None if it cannot be re-run by id)"""
+    parts = m['id'].split('/')
+    if len(parts) != 3 or '@' in parts[2] or parts[0] in ('meta15', 'metaDump'):
+        return None
+    fam, seed, idx = parts
+    os.makedirs(f'{WORK}/l1', exist_ok=True)
+    out = f'{WORK}/l1/{tag}.alone.jsonl'
+    cmd = f'{DRV} gen {fam} {seed} {idx} 1 | {XCHECK} l1 - {out}'
+    r = subprocess.run(cmd, shell=True, capture_output=True, text=True, env=ENV)
+    if r.returncode != 0:
+        return None
+    res = []
+    for line in open(out):
+        line = line.strip()
+        if line:
+            d = json.loads(line)
+            if not d.get('summary'):
+                res += d['mismatches']
+    os.remove(out)
+    return res
+
+
 def family_count(fam):
     r = sh([DRV, 'count', fam])
     t = r.stdout.strip()
